@@ -703,10 +703,24 @@ func (g *gen) assignStmt() {
 		g.line("%s += %s", v.name, g.expr(t, 1).s)
 		g.f("opassign += string")
 	default:
-		g.line("%s = %s", v.name, g.expr(t, 2).s)
+		g.line("%s = %s", v.name, g.assigned(t, g.expr(t, 2)))
 		g.f("assign " + class(t))
 	}
 	g.printVar(v)
+}
+
+// assigned is the text of e as the right-hand side of a plain assignment to a
+// variable of type t. In dynamic mode Ego documents that assigning a constant
+// of another type changes the variable's type ("the variable's type changes
+// to match", docs/LANGUAGE.md, Assigning to a variable), a documented
+// difference from Go and so outside C01: a bare constant is therefore only
+// assigned to a variable of the constant's own default type, and converted
+// explicitly ("v = uint8(128)") otherwise.
+func (g *gen) assigned(t string, e expr) string {
+	if e.isConst && isNum(t) && t != "int" && t != "float64" {
+		return t + "(" + e.s + ")"
+	}
+	return e.s
 }
 
 func (g *gen) incDecStmt() {
@@ -1106,7 +1120,7 @@ func (g *gen) structStmt() {
 		g.f("struct-passed-by-value")
 	case 0:
 		f := st.fields[g.pick("fld", len(st.fields))]
-		g.line("%s.%s = %s", v.name, f.name, g.expr(f.typ, 2).s)
+		g.line("%s.%s = %s", v.name, f.name, g.assigned(f.typ, g.expr(f.typ, 2)))
 		g.f("field-store")
 	case 1:
 		g.n++
@@ -1349,7 +1363,7 @@ func (g *gen) genFunc() {
 		g.line("defer func() {")
 		g.line("\tif r := recover(); r != nil {")
 		g.line("\t\t" + `fmt.Printf("recovered %%v\n", r)`)
-		g.line("\t\tres = %s", g.expr(f.results[0], 1).s)
+		g.line("\t\tres = %s", g.assigned(f.results[0], g.expr(f.results[0], 1)))
 		g.line("\t}")
 		g.line("}()")
 		g.noDefer = true
@@ -1357,7 +1371,7 @@ func (g *gen) genFunc() {
 		if g.chance("closure-sets-result", 40) {
 			cl := g.local("set")
 			g.line("%s := func() {", cl)
-			g.line("\tres = %s", g.expr(f.results[0], 1).s)
+			g.line("\tres = %s", g.assigned(f.results[0], g.expr(f.results[0], 1)))
 			g.line("}")
 			g.line("%s()", cl)
 			g.line(`fmt.Printf("res=%s\n", res)`, verb(f.results[0], g))
